@@ -10,9 +10,9 @@
     mixbits and mixres as long as `l - r`, `mixres * l + (2^mixbits - mixres) * r` and `mixres * (l - r)` are int32
     values; `alac_unmix_mix_encoder`: the conditions hold for everything the encoder does (mixbits 2, mixres 0 … 4,
     inputs of at most 25 bits: 16 / 20-bit samples, 24 / 32-bit samples with the low bytes shifted off).
-  The adaptive Golomb coder is lean/SfProps/C01AlacGolomb.lean (`dyn_decomp (dyn_comp (r)) = r`). NOT proved: the
-  packet-level statement for compressed elements (parameter block + shift bytes + the three inverses put together); both sides
-  are tied to the library bit for bit by the correspondence check (vlib/alaccore.py streams `dec`, `encx`, `file`).
+  The adaptive Golomb coder is lean/SfProps/C01AlacGolomb.lean (`dyn_decomp (dyn_comp (r)) = r`); the packet-level statements
+  (parameter block + shift bytes + the three inverses put together, the encoder's searches included) are C01AlacLossless.lean (mono)
+  and C01AlacLosslessAll.lean (`alac_lossless`, 1 … 8 channels).
 -/
 import SfProofs.AlacMix
 namespace Sf.AlacCore
